@@ -32,7 +32,7 @@ ASSUMPTIONS = [
 REQUIRED_OUTCOMES = ["container/ok", "file/ok", "read_block_selection/ok"]
 
 CHANS = [(1500.0, -4.0), (1500.05, -0.1), (1400.0, -1 / 3), (1200.0, 0.1), (1000.3, 1 / 3)]
-TSAMPS = [1e-3, 64e-6]
+TSAMPS = [1e-3, 64e-6, 1e-5]  # the third only in thorough
 N, C = 12, 8
 
 
@@ -43,12 +43,12 @@ def bounds(tier: str) -> dict:
 def shards(tier: str, seed: int) -> list:
     out = []
     for ci in range(len(CHANS)):
-        for ti in range(len(TSAMPS)):
+        for ti in range(len(TSAMPS) if tier == "thorough" else 2):
             for nbits in (8, 32):
                 for group in ("containers", "files", "read_block", "blocks"):
                     if group in ("read_block", "blocks") and nbits == 8:
                         continue
-                    out.append({"chan": ci, "tsamp": ti, "nbits": nbits, "group": group})
+                    out.append({"chan": ci, "tsamp": ti, "nbits": nbits, "group": group, "starts": [0, 3] if tier == "quick" else [0, 1, 3, 7]})
     return out
 
 
@@ -315,7 +315,7 @@ def run_shard(shard: dict, ctx, res, only=None) -> None:
 
         guard("TimeSeries.correlate", [], f_corr)
     elif g == "files":
-        for start in (0, 3):
+        for start in shard.get("starts", [0, 3]):
             n_eff = N - start
             rk = dict(kw, start=start)
             out = str(wd / "o.fil")
